@@ -237,3 +237,74 @@ STUBS = ["_collocate_matches -> generator over a symbolic sequence of results", 
          "ModelMP (children = their recorded puts, symbolic schedule, bounded queue blocks, fairness after 2 idle polls)",
          "FileSet.match -> fixed match list; _process_caller -> symbolic producer in the parent-loop kernel"]
 ASSUMPTIONS = ["a worker that keeps being runnable is eventually scheduled (fairness)", "Queue.empty() is exact"]
+
+
+# ---- K3: naming and writing of the output files ----------------------------------------------------------
+from symx.stubs import ModelFSSpec                   # noqa: E402
+import typhon.files.fileset as F                      # noqa: E402
+from props.fsetlib import TokenHandler, make_fileset  # noqa: E402
+
+
+class Coll:
+    """stands for a compact collocation dataset with start_time / end_time attributes"""
+
+    def __init__(self, start, end, tag):
+        self.attrs = {"start_time": str(start), "end_time": str(end)}
+        self.tag = tag
+
+
+@harness("C05.save-and-return", cases=lambda tier: ["single", "bundle", "post-processor", "post-processor-none", "memory"],
+         expect=lambda c: ["output-file-is-named-by-the-time-span-it-holds"])
+def k_save(ctx):
+    what = ctx.case
+    mfs = ModelFS(ctx, max_faults=0)
+    h = TokenHandler(mfs, "out")
+    out = make_fileset(ctx, "/out/{year}/{month}/{day}/{hour}{minute}{second}-{end_hour}{end_minute}{end_second}_{primary.sat}.nc"
+                       .replace("{primary.sat}", "{sat}"), mfs, handler=h, name="out")
+    which = ctx.int("which_span", 0, 2)
+    which = which.__index__() if ctx.sym else which
+    s, e = [(datetime(2019, 12, 31, 23, 50, 0), datetime(2019, 12, 31, 23, 59, 59)),
+            (datetime(2020, 2, 28, 22, 0, 5), datetime(2020, 2, 29, 1, 30, 0)),
+            (datetime(2020, 3, 1, 0, 0, 0), datetime(2020, 3, 1, 0, 0, 0))][which]
+    c = CL.Collocator()
+    attrs = {"sat": "A"}
+
+    def merged(lst):
+        m = Coll(min(x.attrs["start_time"] for x in lst), max(x.attrs["end_time"] for x in lst), tuple(x.tag for x in lst))
+        return m
+    pp_calls = []
+
+    def pp(coll, attributes, factor=1):
+        pp_calls.append(factor)
+        return None if what == "post-processor-none" else ("processed", coll.tag, factor)
+    with patched((CL, "concat_collocations", merged)):
+        if what == "bundle":
+            mid = s + (e - s) / 2
+            data = [Coll(s, mid, "t1"), Coll(mid, e, "t2")]
+        else:
+            data = Coll(s, e, "t0")
+        if what == "memory":
+            r = c._save_and_return(data, attrs, None, None, None)
+            ctx.check("output-file-is-named-by-the-time-span-it-holds", r == (data, attrs) and not mfs.files)
+            return
+        kw = (pp, {"factor": 3}) if what.startswith("post-processor") else (None, None)
+        r = c._save_and_return(data, attrs, out, kw[0], kw[1])
+    if what == "post-processor-none":
+        ctx.check("output-file-is-named-by-the-time-span-it-holds", r is None and not mfs.files and pp_calls == [3])
+        return
+    ctx.check("output-file-is-named-by-the-time-span-it-holds", isinstance(r, str) and list(mfs.files) == [r], detail=repr((r, list(mfs.files))))
+    info = out.get_info(F.FileInfo(r))
+    ctx.check("output-file-is-named-by-the-time-span-it-holds", info.times == [s, e] and info.attr == {"sat": "A"},
+              detail="%s parsed to %r" % (r, info.times))
+    stored = mfs.files[r][1]
+    if what == "single":
+        ctx.check("content-written", stored is data)
+    elif what == "bundle":
+        ctx.check("content-written", stored.tag == ("t1", "t2"))
+    else:
+        ctx.check("content-written", stored == ("processed", "t0", 3) and pp_calls == [3])
+
+
+PLAN["quick"]["harnesses"].append("C05.save-and-return")
+PLAN["thorough"]["harnesses"].append("C05.save-and-return")
+BOUNDS["quick"]["output naming"] = "_save_and_return with a single result, a bundle, a post-processor (also one returning None) and output=None; three time spans (year end, leap day across midnight, zero length)"
